@@ -277,7 +277,24 @@ def enum_main(args):
 
 
 def load_prop(prop_id):
-  return importlib.import_module('vmm.props.%s' % prop_id.lower())
+  mod = importlib.import_module('vmm.props.%s' % prop_id.lower())
+  quiet()
+  return mod
+
+
+def quiet():
+  """statsmodels re-enables some warning categories on import; silence them again (after the import)."""
+  import warnings
+  try:
+    import statsmodels.api  # noqa: F401  pylint: disable=unused-import
+    import statsmodels.tools.sm_exceptions as sme
+    for name in dir(sme):
+      obj = getattr(sme, name)
+      if isinstance(obj, type) and issubclass(obj, Warning):
+        warnings.filterwarnings('ignore', category=obj)
+  except Exception:  # pylint: disable=broad-except
+    pass
+  warnings.simplefilter('ignore')
 
 
 def merge(total, part):
